@@ -50,6 +50,7 @@ var concretePolicies = []struct{ name, block, model string }{
 	{"ip_hash", "policy ip_hash", "hashed"},
 	{"uri_hash", "policy uri_hash", "hashed"},
 	{"header", "policy header X-Key", "hashed"},
+	{"header-lc", "policy header x-key", "hashed"}, // the name as an operator may spell it: header names are case-insensitive
 	{"header2", "policy header X-Key X-Key2", "hashed"}, // values of several headers concatenated
 	{"header-novalue", "policy header X-Key", "rr"},     // request without the header: package-global round robin
 }
@@ -459,7 +460,7 @@ func checkSelect(e *selEnv, c *selCase, pi int, fresh bool, onlyClause string, o
 			}
 		}
 	case cp.model == "hashed":
-		kind := map[string]string{"ip_hash": "ip", "uri_hash": "uri", "header": "hdr", "header2": "hdr2"}[cp.name]
+		kind := map[string]string{"ip_hash": "ip", "uri_hash": "uri", "header": "hdr", "header-lc": "hdr", "header2": "hdr2"}[cp.name]
 		kk := kind
 		if kk == "hdr2" {
 			kk = "hdr"
